@@ -13,7 +13,7 @@ LEVEL_NOTE = ("Lean theorems argmax_first (the modelled utils.argmax / np.argmax
               "predict_expectations-on-another-deep-copy, including exact ties. TreeBandit with EpsilonGreedy(eps>0) is excluded "
               "by the property.")
 
-PROFILE = {"name": "C09", "lp": G.CF_KINDS + G.LIN_KINDS, "np": [None, None] + G.NP_KINDS,
+PROFILE = {"name": "C09", "allow_scale": True, "lp": G.CF_KINDS + G.LIN_KINDS, "np": [None, None] + G.NP_KINDS,
            "weights": {"fit": 1, "pfit": 2, "query": 5, "add": 1, "rem": 0.7, "warm": 0.5}}
 
 
